@@ -18,7 +18,7 @@ def scenarios_from_writer(cfg, tag):
     scens = []
     for e in edges:
         if e["fx"] and e["lab"]["op"] == "finalize" and e["lab"]["res"] == "Ok":
-            scens.append(dict(labels=e["to"], stream=e["stream"], files=e["files"]))
+            scens.append(dict(labels=e["to"], stream=e["stream"], files=e["files"], hid=e["hid"]))
     return res, scens
 
 
